@@ -80,6 +80,7 @@ def gen_case(rng):
             # a digit boundary / zero
             "turn_base": rng.choice([None, None, 7, 8, 9, 97, 99, -2, -1]),
             # what the batch ctx carries besides the config: present-but-falsy values are values (epoch 0, seed 0, empty budgets)
+            "slow_first": rng.random() < 0.25,
             "ctx_attrs": rng.choice([None, None, {"now_ms": 0, "seed": 0}, {"now_ms": 1700000000000, "seed": 7, "now": "2023-11-14T22:13:20Z"}, {"now_ms": 0, "now": None, "slice_budgets": {}, "slice_idx": 0},
                                      {"now_ms": 5, "seed": 0, "slice_budgets": {"t2_k": 1}, "slice_idx": 2}, {"now": "", "seed": None}])}
 
@@ -93,6 +94,12 @@ def make_standin(case, trace):
         spec = case["specs"][aid]
         dry = bool(getattr(ctx, "_dry_run_until_t4", False))
         trace.append(("dry" if dry else "full", aid))
+        if dry and case.get("slow_first"):
+            # the compute phases take different times: the first-listed agents are the slowest (if they ran side by side, the
+            # later-listed ones would finish first)
+            import time as _t
+            k_ = case["agents"].index(aid)
+            _t.sleep(max(0.0, 0.012 * (2 - k_)))
         if case.get("turn_base") is not None:
             ctx.turn_id = case["turn_base"] + case["agents"].index(aid)
         if case.get("ctx_attrs") is not None:
